@@ -325,7 +325,10 @@ pub fn field(rng: &mut Rng, w: &World, v5: bool, kind: u8, sane: bool) -> Vec<u8
                 3 => *rng.pick(&[EF_V5_DRAFT_ID, EF_V5_PADDING, EF_V5_REFID_REQ, EF_V5_REFID_RESP]),
                 _ => 0x4000 | rng.u16(),
             };
-            let t = if t == EF_NTS_AUTH { 0x0405 } else { t };
+            let t = if t == EF_NTS_AUTH { 0x0405 } else if t == EF_NTS_COOKIE { 0x0205 } else { t };
+            // in well-formed packets an "unknown" field really is of a type the decoder does not interpret
+            let known = [EF_UNIQUE_ID, EF_NTS_COOKIE, EF_NTS_PLACEHOLDER, EF_NTS_AUTH, EF_V5_DRAFT_ID, EF_V5_PADDING, EF_V5_REFID_REQ, EF_V5_REFID_RESP];
+            let t = if sane && known.contains(&t) { 0x7000 | (t & 0xFF) } else { t };
             let n = small_len(rng);
             encode_field(t, &rng.bytes(n), v5, None)
         }
@@ -368,6 +371,8 @@ pub fn field(rng: &mut Rng, w: &World, v5: bool, kind: u8, sane: bool) -> Vec<u8
                 2 => 4 * rng.usize(1, 32),
                 _ => *rng.pick(&[2usize, 3, 4, 5, 6, 7, 8, 508, 512, 516]),
             };
+            // what a correct peer sends: whole words, at least the offset word
+            let n = if sane { 4 * rng.usize(1, 16) } else { n };
             let mut v = if rng.bool() { vec![0u8; n] } else { rng.bytes(n) };
             if n >= 2 {
                 let off = match rng.below(3) {
